@@ -171,7 +171,7 @@ STUB_DESCRIPTIONS = [
     'edb.server.dbview.DatabaseIndex -> simulated server state (get_cached_compiler_args)',
     'edb.schema.schema, edb.server.config -> empty type shells (annotations only)',
     'edb.common.uuidgen.uuid4 -> counter', 'edb.common.markup.dump, edb.edgeql.parser.preload_spec -> no-op',
-    'amsg.WorkerConnection (unix socket) -> one-shot in-memory connection; asyncio transport -> FakeTransport',
+    'socket (worker side of the unix socket, under the real amsg.WorkerConnection) -> in-memory byte buffers; asyncio transport -> FakeTransport',
     'loop.create_unix_server / loop.subprocess_exec -> simulator (spawns simulated worker processes)',
     'pickle module attribute of pool.py / worker.py / multitenant_worker.py / worker_proc.py -> pass-through proxy with fault points',
     'time.monotonic, os.kill of pool.py -> simulated clock / simulated process table',
@@ -248,6 +248,14 @@ def load(patches=None):
     wcode = {rel: compile(patched[rel], os.path.join(REPO, f'edb/server/compiler_pool/{rel}.py'),
                           'exec', dont_inherit=True)
              for rel in ('worker', 'multitenant_worker')}
+    # what a freshly started compiler-server process executes for its module-level counters
+    # (re-evaluated by the simulator every time it "starts" that process)
+    import ast
+    server_init = {}
+    for node in ast.parse(patched['server']).body:
+        if (isinstance(node, ast.Assign) and len(node.targets) == 1 and isinstance(node.targets[0], ast.Name)
+                and node.targets[0].id in ('_client_id_seq', '_tx_state_id_seq')):
+            server_init[node.targets[0].id] = compile(ast.Expression(node.value), '<server.py module level>', 'eval')
     # seams
     null = island.NullLogger()
     mods['pool'].logger = null
@@ -256,7 +264,7 @@ def load(patches=None):
     mods['pool'].time = tp
     mods['server'].time = tp
     mods['server'].logger = null
-    _state.update(mods=mods, wcode=wcode, time=tp, fakes=fakes, patches_key=_key(patches),
+    _state.update(mods=mods, wcode=wcode, time=tp, fakes=fakes, patches_key=_key(patches), server_init=server_init,
                   real_modules=sorted(n for n, m in sys.modules.items()
                                       if n.startswith('edb.') and not getattr(m, '__verif_fake__', False)))
     return _state
